@@ -7,7 +7,7 @@ V = '/verif'; R = '/repo'
 def sh(cmd, **kw): return subprocess.run(cmd, shell=True, capture_output=True, text=True, **kw)
 
 def do_import(src):
-    for d in sorted(glob.glob(src + '/c*/[ab]')):
+    for d in sorted(glob.glob(src + '/c*/[a-z]')):
         sid = os.path.basename(os.path.dirname(d)) + os.path.basename(d)
         log = open(d + '/confirm.log').read() if os.path.exists(d + '/confirm.log') else ''
         if not log.strip().endswith('CONFIRMED'):
